@@ -15,11 +15,11 @@ def qr_r_jvp(primals, tangents):
     """Evaluate the JVP of qr_r.
 
     The difference to JAX's custom JVP for the QR-decomposition
-    is that qr_r does not return Q which removes the linear solve
-    with R from the computation.
-    This is not only cheaper, but also more stable because it makes qr_r
-    differentiable at the origin (which means calling it with the zero matrix).
+    is that qr_r stays differentiable at the origin (which means calling it
+    with the zero matrix): wherever R is singular, Q is treated as constant,
+    which removes the linear solve with R from the computation.
     Using the JVP of the full QR decomposition does not have this feature.
+    Wherever R is regular, the rule is the derivative of the R factor.
 
     Refer to Issue #668 for why we need this.
     """
@@ -31,9 +31,22 @@ def qr_r_jvp(primals, tangents):
     (M_dot,) = tangents
     Q, R = jnp.linalg.qr(M, mode="reduced")
 
-    # Treat 'Q' as constant, which implies
-    # R = Q^\top M and we get obvious derivatives
-    R_dot = Q.T @ M_dot
+    # Where R is singular (e.g. at the origin), treat 'Q' as constant,
+    # which implies R = Q^\top M and we get obvious (finite) derivatives.
+    R_dot_singular = Q.T @ M_dot
+    if R.shape[0] != R.shape[1]:  # wide inputs: keep the simple rule
+        return R, R_dot_singular
+
+    # Where R is regular, use the derivative of the QR decomposition:
+    # R_dot = (X - Omega) R with X = Q^\top M_dot R^{-1} and the skew-symmetric
+    # Omega = L - L^\top, L = strictly-lower(X), which keeps R_dot triangular.
+    is_regular = jnp.all(jnp.diagonal(R) != 0.0)
+    R_safe = jnp.where(is_regular, R, jnp.eye(*R.shape, dtype=R.dtype))
+    X = jax.scipy.linalg.solve_triangular(R_safe.T, R_dot_singular.T, lower=True).T
+    L = jnp.tril(X, -1)
+    R_dot_regular = (X - L + L.T) @ R_safe
+
+    R_dot = jnp.where(is_regular, R_dot_regular, R_dot_singular)
     return R, R_dot
 
 
